@@ -216,6 +216,19 @@ func (ps *PegSpec) Prelude(ruleConst map[string]int, ast bool) string {
 		}
 	}
 	fmt.Fprintf(&sb, "(define-fun AS ((r Int)) Bool %s)\n", or(ors...))
+	// Execute: which rule constants are actions (and which), which is the capture pseudo-rule
+	ai := "(- 1)"
+	for i := range ps.Actions {
+		if c, ok := ruleConst[fmt.Sprintf("Action%d", i)]; ok {
+			ai = fmt.Sprintf("(ite (= r %d) %d %s)", c, i, ai)
+		}
+	}
+	fmt.Fprintf(&sb, "(define-fun actIdx ((r Int)) Int %s)\n", ai)
+	pt := -1
+	if c, ok := ruleConst["PegText"]; ok {
+		pt = c
+	}
+	fmt.Fprintf(&sb, "(define-fun PEGTEXT () Int %s)\n", num(int64(pt)))
 	// rows of the action rules (non-recursive, always included)
 	for i := range ps.Actions {
 		c, ok := ruleConst[fmt.Sprintf("Action%d", i)]
